@@ -75,6 +75,7 @@ type VerifC11WireObs struct {
 	Sent     int              `json:"sent"` // requests handed to the client
 	Srv      VerifC11WireRead `json:"srv"`
 	Cli      VerifC11WireRead `json:"cli"`
+	FrozenMs int64            `json:"frozenMs"` // set by the harness: the process was not scheduled for that long
 }
 
 // verifC11WireStream is a peer's stdout: head, then fill zero bytes, then EOF.
